@@ -199,6 +199,10 @@ def make_check(cmd, table):
         expect(id(c.datain) == rec["datain_id"], "mismatch:datain_buffer_replaced_after_execute")
         expect(id(c.dataout) == rec["dataout_id"], "mismatch:dataout_buffer_replaced_after_execute")
         expect(bytes(c.cdb) == rec["cdb"], "mismatch:cdb_changed_after_execute")
+        if (cmd.name.startswith("atapassthrough") and isinstance(a, dict) and a.get("t_dir") == 1
+                and isinstance(a.get("data"), bytearray) and len(a["data"])):
+            # a data-in buffer supplied by the caller is the buffer the device fills
+            expect(rec["datain_id"] == id(a["data"]), "mismatch:callers_datain_buffer_not_handed_to_the_device")
         # opcode as assigned in the attached device's table, CDB per the standard
         with lib("opcode lookup"):
             want_op = cmd.opcode(table).value
